@@ -242,6 +242,26 @@ def c37(c):
         exhaustive=True)
 
 
+def replay_c37(c, path):
+    """Re-execute a replay file.  A behaviour that takes the feature-losing restart branch is reproduced when the real
+    restart outcome equals that branch (counted by the harness), not only when spec and code diverge."""
+    r = json.load(open(path))
+    vf.build_harness([BIN])
+    bf = os.path.join(c.scratch, "beh.ndjson")
+    with open(bf, "w") as f:
+        f.write(json.dumps(r["behaviour"]) + "\n")
+    rep = vf.run_harness(BIN, ["replay-gov", "-in", bf])
+    lost = sum(v for k, v in (rep.get("op_counts") or {}).items() if k.startswith("known:"))
+    c.cleanup()
+    if rep.get("n_mismatches", 0) > 0 or lost > 0:
+        print("VIOLATION property=%s replay=%s" % (c.pid, path))
+        print("  reproduced: " + (json.dumps(rep["mismatches"][0])[:400] if rep.get("mismatches") else
+                                  "restart lost the activation map (%d restart steps took the coded branch)" % lost))
+        return 1
+    print("NOT-REPRODUCED property=%s replay=%s" % (c.pid, path))
+    return 0
+
+
 def _mk(run, pid, text):
     return {"run": run, "level": "model_checking", "engine": "chain", "design_ref": "DESIGN.md section 6 " + pid,
             "engine_path": "spec/chain + harness/chainsim + harness/cmd/vh-chain-gov + checks/chain_gov.py",
@@ -265,4 +285,5 @@ PROPERTIES = {
                             "sorted and duplicate-free, the real activation predicate agrees with the stored heights; a restart must reproduce "
                             "the map from state (known finding: lost when the stored upgrade height is 0)."),
 }
+PROPERTIES["C37"]["replay"] = replay_c37
 ENGINE_KIND = "TLA+ application-level specification (ChainBase/ChainAuth/ChainBlock/ChainGov...) + ABCI replay and trace validation on the real PocketCoreApp"
